@@ -38,7 +38,10 @@ WORK, TREE_OID = _workload()
 OIDS = sorted(WORK)
 # environment actions: (kind, object index)
 ACTIONS = [("place-protected", i) for i in range(len(OIDS))] + [("place-unprotected", i) for i in range(len(OIDS))] + \
-          [("mkdir", i) for i in range(len(OIDS))] + [("state-row", i) for i in range(len(OIDS))]
+          [("mkdir", i) for i in range(len(OIDS))] + [("state-row", i) for i in range(len(OIDS))] + \
+          [("probe-create", i) for i in range(len(OIDS))] + [("probe-finish", i) for i in range(len(OIDS))]
+# probe-create / probe-finish: the two halves of another writer's add of object i as dvc_objects performs it - an in-place reflink
+# probe leaves an *empty* file under the final name for a moment, then removes it and places the complete object by rename
 
 
 def _apply(env, cache, st, action):
@@ -53,6 +56,18 @@ def _apply(env, cache, st, action):
         if not inner.lexists(path):  # an atomic rename of a complete object; an existing identical object is left alone
             inner.write(path, WORK[oid])
             inner._p_chmod(path, 0o444 if (kind == "place-protected" and CLS == "local") else 0o644)
+    elif kind == "probe-create":
+        inner.makedirs(path.rsplit("/", 1)[0], exist_ok=True)
+        if not inner.lexists(path):
+            inner.write(path, b"x")  # never empty-equal to a real empty object: the probe leaves size 0
+            inner.files[inner._resolve(path)].data = b""
+    elif kind == "probe-finish":
+        inner.makedirs(path.rsplit("/", 1)[0], exist_ok=True)
+        if inner.lexists(path) and inner.read(path) == b"" and WORK[oid] != b"":
+            inner._p_unlink(path)
+        if not inner.lexists(path):
+            inner.write(path, WORK[oid])
+            inner._p_chmod(path, 0o444 if CLS == "local" else 0o644)
     elif kind == "state-row":
         if inner.lexists(path):
             info = env.fs.info(path)
@@ -99,7 +114,7 @@ def reference():
 
 def h_interfere(e1: int, a1: int, e2: int, a2: int) -> bool:
     """
-    pre: -1 <= e1 <= 60 and -1 <= e2 <= 60 and 0 <= a1 <= 11 and 0 <= a2 <= 11
+    pre: -1 <= e1 <= 60 and -1 <= e2 <= 60 and 0 <= a1 <= 17 and 0 <= a2 <= 17
     post: _
     """
     with NoTracing():
@@ -110,7 +125,10 @@ def h_interfere(e1: int, a1: int, e2: int, a2: int) -> bool:
     k1 = pick(e1, lo1, hi1)
     act1 = int(cube("a1")) if cube("a1", None) is not None else pick(a1, 0, len(ACTIONS) - 1)
     plan.append((k1, ACTIONS[act1]))
-    if NSTEPS >= 2:
+    if cube("probe", None) is not None:  # paired: the other writer's probe opens at k1 and its add completes at k2 >= k1
+        i = int(cube("probe"))
+        plan = [(k1, ("probe-create", i)), (pick(e2, k1, n), ("probe-finish", i))]
+    elif NSTEPS >= 2:
         k2 = pick(e2, k1, n)
         act2 = int(cube("a2")) if cube("a2", None) is not None else pick(a2, 0, len(ACTIONS) - 1)
         plan.append((k2, ACTIONS[act2]))
